@@ -44,6 +44,25 @@ def build_jobs(prop, tier, seed, do, monitors, streams=None, want=None, monitor_
             task.update(task_extra)
         jobs.append(Job("framework.props.models", "run_models", task, mode=mode,
                         timeout=300 if q else 1800, tag="clean:%s:%d" % (mode, j), stall_s=60 if q else 120))
+    # focus stream: three-way value splits (mid value / min cost) on wide domains under one-directional constraints -
+    # the part of the search machinery that two-valued and alldifferent-only models never reach
+    for j in range(2 if q else 4):
+        cost = j % 2 == 1
+        task = {
+            "props": want, "seed": seed * 389 + j * 11 + 1, "count": per_job * 2,
+            "gen": clean_gen({"types": ["affine_leq", "affine_geq", "max_leq", "min_geq", "affine_leq", "affine_geq",
+                                        "alldifferent", "element_iv", "relation", "lexicographic_leq", "count_eq"],
+                              "widths": [2, 3, 3, 4, 4, 5], "max_doms": 4, "max_props": 3, "circuit": 0.0,
+                              "nonneg": cost, "big": False}),
+            "configs": "random", "configs_per_model": configs_per_model, "cost": cost, "monitors": monitors,
+            "monitor_opts": monitor_opts or {}, "do": do, "orders": orders, "objectives_per_model": 1,
+            "force_cfg": {"dh": ["min_cost"] if cost else ["mid"]},
+            "max_points": 6000, "deadline_s": 60 if q else 900, "stream": "focus_three_way_split",
+        }
+        if task_extra:
+            task.update(task_extra)
+        jobs.append(Job("framework.props.models", "run_models", task, mode="jit" if (jit_share > 0 and j >= 2) else
+                        "interp", timeout=300 if q else 1800, tag="focus3:%d" % j, stall_s=60 if q else 120))
     # interaction stream: every ordered pair of constraint types forced to share a variable (mover x watcher)
     if pairs_jobs is None:
         pairs_jobs = 2 if q else 6
